@@ -14,7 +14,7 @@ extern "C" int exception_handler_usecount __attribute__((weak));
 
 // ------------------------------------------------------------- work plans ---
 enum Api { A_SCANNER_MEM, A_RULES_MEM, A_RULES_FILE, A_RULES_FD, A_SCANNER_BLOCKS, A_RULES_FILE_TRUNC, A_RULES_FD_MMAPFAIL, A_NAPI };
-struct ScanPlan { int api; int buf; int reply_at; int reply; int ext_i; int ext_off; int mdata; int timeout; };
+struct ScanPlan { int api; int buf; int reply_at; int reply; int ext_i; int ext_off; int mdata; int timeout; int ext_b = -1; int ext_f = -1; int ext_s = -1; };   // ext_b/f/s: -1 = this scan keeps the rule set's value
 struct TaskPlan { std::vector<ScanPlan> scans; bool compile_task = false; };
 struct RunPlan { int rules_idx; std::vector<TaskPlan> tasks; SchedPolicy pol; bool fresh_rules = false; };
 
@@ -39,6 +39,10 @@ static ScanResult do_scan(const Shared& sh, const ScanPlan& p, YR_SCANNER* sc) {
     case A_SCANNER_MEM: case A_SCANNER_BLOCKS:
       yr_scanner_set_callback(sc, recorder_callback, &rec); yr_scanner_set_timeout(sc, p.timeout);
       yr_scanner_define_integer_variable(sc, "ext_i", p.ext_i); yr_scanner_define_integer_variable(sc, "ext_off", p.ext_off);
+      // every type of scanner-level definition: each must stay private to this scanner (the solo run of the same plan is the reference)
+      if (p.ext_b >= 0) yr_scanner_define_boolean_variable(sc, "ext_b", p.ext_b);
+      if (p.ext_f >= 0) yr_scanner_define_float_variable(sc, "ext_f", p.ext_f ? 2.5 : 9.5);
+      if (p.ext_s >= 0) yr_scanner_define_string_variable(sc, "ext_s", p.ext_s ? "hay needle" : "nothing here");
       if (p.api == A_SCANNER_MEM) r.rc = yr_scanner_scan_mem(sc, (const uint8_t*) buf.data(), buf.size());
       else { BlockIter bi; size_t cut = buf.size() / 2; if (buf.size() >= 2) bi.init(buf.data(), buf.size(), {{0, cut}, {cut, buf.size() - cut}}); else bi.init_single(buf.data(), buf.size()); bi.on_call = [](BlockIter&, int64_t, bool) { sched_yield(YK_ITER, nullptr); }; r.rc = yr_scanner_scan_mem_blocks(sc, &bi.it); }
       break;
@@ -168,6 +172,7 @@ static RunPlan gen_plan(Rng& rng, int nrules, bool big) {
       s.buf = (int) rng.below(big ? 3 : NBUF); if (big && s.buf == 1) s.buf = 0;
       s.reply_at = rng.chance(1, 4) ? (int) rng.below(30) : -1; s.reply = rng.chance(1, 2) ? CALLBACK_ABORT : CALLBACK_ERROR;
       s.ext_i = rng.chance(1, 2) ? 42 : (int) rng.below(50); s.ext_off = rng.chance(1, 2) ? 5 : (int) rng.below(9); s.mdata = (int) rng.below(3); s.timeout = rng.chance(1, 3) ? 2 : 0;
+      if (rng.chance(1, 3)) s.ext_b = (int) rng.below(2); if (rng.chance(1, 4)) s.ext_f = (int) rng.below(2); if (rng.chance(1, 4)) s.ext_s = (int) rng.below(2);
       tp.scans.push_back(s);
     }
     rp.tasks.push_back(tp);
